@@ -42,6 +42,7 @@ type trace struct {
 	hist  map[string]int
 	cases int
 	lines int
+	stuck int // "!stuck" lines written: calls of the library that did not return within the watchdog
 }
 
 func (t *trace) Case(id string) {
@@ -56,6 +57,9 @@ func (t *trace) Line(op string, result string) {
 	defer t.mu.Unlock()
 	fmt.Fprintf(t.w, "%s => %s\n", op, result)
 	t.lines++
+	if strings.HasPrefix(op, "!stuck") {
+		t.stuck++
+	}
 	k := op
 	if i := strings.IndexByte(op, ' '); i >= 0 {
 		k = op[:i]
@@ -155,6 +159,14 @@ func main() {
 			t.Case(fmt.Sprintf("g%d", i))
 			f.exec(t, s)
 			t.End()
+			t.mu.Lock()
+			st := t.stuck
+			t.mu.Unlock()
+			if st >= 4 {
+				// every stuck case costs two watchdog periods; four are enough evidence (each is reported with its script)
+				fmt.Fprintf(os.Stderr, "corr: %d cases with calls that did not return; stopping after case g%d of %d\n", st, i, *n)
+				break
+			}
 		}
 	}
 	t.w.Flush()
